@@ -69,7 +69,7 @@ def run(ctx):
         "everything inside the Cython-generated wrapper C and numpy: sanitizer runs only",
         "binary64 instance of the float-dependent index walks (c_var2h, c_coord2cell, c_delineate_boundary): "
         "theorems are over the reals / any arithmetic with exact integer embedding; binary64 by correspondence"]
-    proved = cm.prove(ctx)
+    proved = cm.prove(ctx, extra_targets=["Model/SafetyCases.vo"])
     rng = ctx.rng
     t0 = time.time()
     klib = nat.build_klib_san()
@@ -126,10 +126,9 @@ def run(ctx):
         ctx.obligation(f"Cases_{PID}_{k}.agree (model = sanitized kernel on the shard)", True)
 
     # ------------------------------------------------------------------ API level
-    acases = []
-    for c in cm.load_corpus(PID):
-        acases.append((c["fn"], c["code"], "corpus"))
-    acases += [(f, code, "replay") for f, code in ac.REPLAYS]
+    acases = [(c["fn"], c["code"], "corpus") for c in cm.load_corpus(PID)]
+    if not acases:      # corpus/C05 missing: the same replays, from the module
+        acases = [(f, code, "replay") for f, code in ac.REPLAYS]
     acases += [(f, code, "enum") for f, code in ac.all_cases(rng, not ctx.thorough)]
     if ctx.replay and isinstance(ctx.replay.get("replay"), dict) and "code" in ctx.replay["replay"]:
         acases.insert(0, (ctx.replay["replay"].get("fn", "replay"), ctx.replay["replay"]["code"], "replay-arg"))
